@@ -9,6 +9,8 @@ PROPS_FILE = "Props/C08.v"
 LISTS = {
     "str": ["red", "green", "dark red"], "str1": ["only"], "str5": ["a", "b", "c", "d", "e"], "int": [1, 2, 3], "int2": [0, 10], "num": [0.5, 1, 2.25],
     "bool": [True], "mixed": ["a", 1, True, 2.5], "null-mixed": ["a", None, 1], "null-first": [None, "x", "y"], "strnum": ["1", "2"],
+    "bool-and-its-spelling": [True, False, "true", "false"], "num-and-its-spelling": [1, 2, "1", "2"], "null-and-its-spelling": [None, "<nil>", "null"],
+    "repeated": ["a", "b", "a"],
 }
 TYPES = {"str": "string", "str1": "string", "str5": "string", "int": "integer", "int2": "integer", "num": "number", "bool": "boolean", "strnum": "string"}
 
